@@ -98,6 +98,21 @@ pub fn group(req: &str) -> String {
     if let Some(x) = v["extra"].as_str() {
         g.set_extra_runtime_script(x);
     }
+    // groups to import (each {"files":[..],"scripts":[..]}), built separately and merged with import_group
+    for sub in v["imports"].as_array().unwrap_or(&vec![]) {
+        let mut sg = tc::TmplGroup::new();
+        for f in sub["files"].as_array().unwrap_or(&vec![]) {
+            let p = f[0].as_str().unwrap();
+            for w in sg.add_tmpl(p, f[1].as_str().unwrap()) {
+                warnings.push(warn_json(&w));
+            }
+            paths.push(p.to_string());
+        }
+        for f in sub["scripts"].as_array().unwrap_or(&vec![]) {
+            sg.add_script(f[0].as_str().unwrap(), f[1].as_str().unwrap());
+        }
+        g.import_group(&sg);
+    }
     let mut per = serde_json::Map::new();
     let mut deps = serde_json::Map::new();
     let mut sdeps = serde_json::Map::new();
@@ -128,6 +143,7 @@ pub fn group(req: &str) -> String {
     };
     let out = json!({
         "warnings": warnings,
+        "order": g.list_template_trees().map(|(k, _)| k.to_string()).collect::<Vec<_>>(),
         "per": per,
         "deps": deps,
         "script_deps": sdeps,
